@@ -141,7 +141,7 @@ func HostRuleConfLoad(filename string) (HostConf, error) {
 
 	for hostTag, hostnameList := range *config.Hosts {
 		for _, hostName := range *hostnameList {
-			if host2HostTag[hostName] != "" {
+			if _, dup := host2HostTag[hostName]; dup {
 				return conf, fmt.Errorf("host duplicate for %s", hostName)
 			}
 			host2HostTag[hostName] = hostTag
